@@ -82,6 +82,26 @@ def gen_closed(rng):
     return {'kind': 'closed', 'ops': s.ops, 'closed': closed}
 
 
+def gen_many(rng):
+    """SCALE: many registrations (most on other lines), two of them on one line, everything applied, then one of the two
+    (and a few others) unregistered and applied"""
+    n = rng.choice([34, 40, 64, rng.randint(34, 200)])
+    ops = []
+    twin = sorted(rng.sample(range(n), 2))
+    for i in range(n):
+        line = 500 if i in twin else 1000 + i
+        ops.append({'op': 'register', 'path': 'a.py' if i % 3 else 'b.py', 'line': line, 'tag': 'm%d' % i, 'args': {}})
+    ops += [{'op': 'applyTask', 'i': 0}] * n
+    gone = [rng.choice(twin)] + rng.sample(range(n), rng.randint(0, 3))
+    seen = []
+    for h in gone:
+        ops.append({'op': 'unregister', 'handle': h})
+        if h not in seen:
+            ops.append({'op': 'applyTask', 'i': 0})
+            seen.append(h)
+    return {'kind': 'seq', 'ops': ops}
+
+
 def gen(rng, tier):
     for c in svcref.preempt_cases():
         yield c
@@ -90,7 +110,12 @@ def gen(rng, tier):
     k = 0
     while True:
         k += 1
-        yield svcref.gen_hits(rng) if k % 7 == 0 else gen_closed(rng) if k % 11 == 3 else gen_case(rng, tier)
+        if k in (9, 209, 409):
+            yield svcref.gen_backlog(rng, custom=True)     # SCALE: register / unregister behind 1000..3000 queued tasks
+        elif k in (19, 219, 419, 619):
+            yield gen_many(rng)                            # SCALE: 34..200 registrations, two on one line, unregister
+        else:
+            yield svcref.gen_hits(rng) if k % 7 == 0 else gen_closed(rng) if k % 11 == 3 else gen_case(rng, tier)
 
 
 def corpus():
@@ -109,6 +134,10 @@ def corpus():
         {'kind': 'closed', 'ops': [reg('w1'), reg('w2'), ap(0), ap(0)],
          'closed': [{'op': 'unregister', 'handle': 1}, {'op': 'unregister', 'handle': 1}, reg('late'),
                     {'op': 'unregister', 'handle': 0}, {'op': 'unregister', 'handle': 7}]},
+        # SCALE: 40 registrations, two of them on one line; the second of the two goes
+        {'kind': 'seq', 'ops': [reg('m%d' % i, 500 if i in (7, 21) else 1000 + i) for i in range(40)] + [ap(0)] * 40 +
+                               [{'op': 'unregister', 'handle': 21}, ap(0)]},
+        {'kind': 'backlog', 'n': 1100, 'ops': [reg('w1'), reg('w2'), {'op': 'unregister', 'handle': 0}]},
         # alongside a service configuration on the same line
         {'kind': 'seq', 'ops': [reg('w1'), {'op': 'poll', 'nc': False, 'rt': 1, 'ts': 5, 'hash': 'h1', 'tps': [
             {'path': 'a.py', 'line': 10, 'tag': 's1', 'args': {}}]}, ap(1), ap(0),
@@ -146,6 +175,8 @@ def run_impl(case):
         return svcbench.run_hits(case)
     if case['kind'] == 'preempt':
         return svcbench.run_preempt(case)
+    if case['kind'] == 'backlog':
+        return svcbench.run_backlog(case)
     if case['kind'] == 'closed':
         return svcbench.run_closed(case)
     return svcbench.run_ops(case['ops'])
@@ -160,6 +191,8 @@ def oracle(case, obs):
         return svcref.preempt_oracle(case, obs)
     if case['kind'] == 'closed':
         return oracle_closed(case, obs)
+    if case['kind'] == 'backlog':
+        return svcref.backlog_oracle(case, obs)
     v = []
     ref = svcref.Reference()
     for n, (op, t) in enumerate(zip(case['ops'], obs['trace'])):
@@ -226,6 +259,8 @@ def oracle_closed(case, obs):
 
 
 def model_request(case, obs):
+    if case['kind'] == 'backlog':
+        return svcref.backlog_request(case)
     if case['kind'] == 'closed':
         return {'ops': svcref.driver_ops(case['ops']) + [{'op': 'applyTask', 'i': 0}] * 40,
                 'closed_ops': svcref.driver_ops(case['closed'])}
@@ -237,6 +272,8 @@ def model_request(case, obs):
 
 
 def compare(case, obs, resp):
+    if case['kind'] == 'backlog':
+        return svcref.backlog_compare(case, obs, resp)
     if case['kind'] == 'closed':
         if 'error' in resp:
             return ['model error: ' + resp['error']]
@@ -278,6 +315,8 @@ def _shared_removals(case):
 
 
 def label(case, obs):
+    if case['kind'] == 'backlog':
+        return 'scale/backlog-%s' % ('1000+' if case['n'] >= 1000 else 'small')
     if case['kind'] == 'closed':
         ks = sorted({o['op'] for o in case['closed']})
         return 'after-close/' + '+'.join(ks)
@@ -297,6 +336,8 @@ def label(case, obs):
 
 
 def nontrivial(case, obs):
+    if case['kind'] == 'backlog':
+        return True
     if case['kind'] == 'closed':
         return any(o['op'] == 'unregister' for o in case['closed'])
     if outside_statement(case):
@@ -309,6 +350,11 @@ def nontrivial(case, obs):
 
 
 def shrink(case):
+    if case['kind'] == 'backlog':
+        for i in range(len(case['ops']) - 1, -1, -1):
+            if len(case['ops']) > 1 and case['ops'][i]['op'] != 'register':
+                yield dict(case, ops=case['ops'][:i] + case['ops'][i + 1:])
+        return
     if case['kind'] == 'closed':
         for i in range(len(case['closed']) - 1, -1, -1):
             if len(case['closed']) > 1:
